@@ -376,6 +376,7 @@ func writeEvidence(verif, id, tier string, seed int, res *checkResult, total, pr
 		"samples":                    samples,
 		"bounded":                    []string{},
 		"not_proved_waived":          waived,
+		"slowest_obligations":        slowest(res.Obls, 5),
 	}
 	if mut != nil {
 		cov["mutants_run"] = mut.Run
@@ -399,4 +400,20 @@ func writeEvidence(verif, id, tier string, seed int, res *checkResult, total, pr
 
 func round3(f float64) float64 {
 	return float64(int(f*1000+0.5)) / 1000
+}
+
+// slowest lists the n obligations that took longest (name, seconds, solver):
+// the ones closest to the per-obligation timeout.
+func slowest(obs []*eng.Obligation, n int) []string {
+	cp := append([]*eng.Obligation(nil), obs...)
+	sort.SliceStable(cp, func(i, j int) bool { return cp[i].Seconds > cp[j].Seconds })
+	var out []string
+	for i := 0; i < n && i < len(cp); i++ {
+		if cp[i].Cover {
+			n++
+			continue
+		}
+		out = append(out, fmt.Sprintf("%s %.1fs %s", cp[i].Name, cp[i].Seconds, cp[i].Solver))
+	}
+	return out
 }
